@@ -23,7 +23,8 @@ Proof.
     { exists []. cbn [fst snd rs_sent rs_d]. rewrite app_nil_r. repeat split; auto; try (intros ? []). }
     exists [c].
     destruct (mutating c && negb (is_chunk c) && mem_nat (rs_mut r) (ft_dest ft)) eqn:Einj; cbn [fst snd].
-    + cbn [rs_sent rs_d]. repeat split; auto. intros c' [<-|[]]; reflexivity.
+    + cbn [rs_sent rs_d]. split; [reflexivity|]. split; [|intros c' [<-|[]]; reflexivity].
+      intros p _. destruct c; reflexivity.
     + destruct (doer_exec fl (rs_d r) c) as [d' err] eqn:E. cbn [fst snd].
       destruct err; cbn [rs_sent rs_d]; repeat split; auto;
         try (intros p Hp; eapply doer_exec_frame; eauto; apply Hp; left; reflexivity);
